@@ -22,21 +22,25 @@ from pathlib import Path
 from harness.translate import c01_tables
 
 ID = "C01"
-LEVEL_TEXT = ("Theorems for all statement lists of the abstract statement language (def/class/assign/annassign/import/importfrom/if/"
-              "block/handler/docstring, any nesting): the stack-and-flag visitor machine computes a purely recursive level semantics "
-              "(type-guard flag = inherited attribute; current/parent handling = recursion); member names at every level are exactly the "
-              "names bound there in first-binding order; the surviving kind/line/runtime flag follows Griffe's tie-break (later wins, "
-              "conditional attribute re-assignment does not displace); the extension trace is well bracketed with parents announced first; "
-              "no Python error except an @overload def directly in a class's __init__ (finding F1, refuted by witness, proved modulo the gap); "
-              "the visibility ladders regenerated from mixins.py equal the documented table on every consistent input modulo two gaps "
-              "(F4 empty __all__, F5 parentless object raises). Model tied to the code by differential runs on generated modules.")
+LEVEL_TEXT = ("Theorems for all statement lists of an abstract statement language (def/class/assign/annassign/__all__ +=/import/from-import/if/"
+              "block/handler/docstring statement, any nesting, any duplication): the stack-and-flag visitor machine (frame stack = Visitor.current, "
+              "mutable type_guarded saved/restored by visit_if, events, Python errors) computes exactly a recursive level semantics in which the "
+              "type-guard flag is an inherited attribute true only in the body of a module/class-level `if TYPE_CHECKING`; at module level and for "
+              "every class statement at any depth the member names are exactly the bound names in first-binding order and kind / first line / runtime "
+              "flag are those of the binding surviving Griffe's tie-break (later wins, conditional attribute re-assignment kept out); the extension "
+              "trace is well bracketed with parents first; griffe.visit raises iff an @overload def sits directly in a class's __init__ (finding F1, "
+              "witness + exact characterisation); the visibility ladders regenerated from mixins.py equal the documented table on all 15360 inputs "
+              "modulo F4 (empty __all__) and F5 (parentless object raises). Model tied to the code on every run by differential runs on generated "
+              "modules (tree, spans, labels, docstrings, flags, imports, exports, event trace) plus direct checks against CPython's ast/exec.")
 LEVEL_NOTE = ("Trusted: Coq kernel, extraction, translator harness/translate/c01_tables.py, the harness abstraction ast -> stmt (resolves decorator "
-              "heads through module-level imports, computes import paths and __all__ items), CPython ast/exec as authority. Modelled, not "
-              "verified: expression contents (C03), overload buffer / setter attachment (C02; only their effect on membership is kept), "
-              "annotation forwarding, members of functions (discarded). Source text <-> ast positions are CPython's. Surviving-kind theorem "
-              "excludes accessor decorators (x.setter), which are C02's.")
+              "heads and ClassVar through module-level imports, computes import paths for a parentless module and __all__ items), CPython ast/exec "
+              "as authority. Modelled, not verified: expression contents (C03), overload buffer / setter attachment (C02; only their effect on "
+              "membership and labels is kept), annotation forwarding, members of functions (discarded by the model, not compared). The surviving-kind "
+              "theorems exclude accessor decorators (x.setter: C02). Label and docstring content has no theorem beyond the witnesses of F2/F3; it is "
+              "covered by correspondence and direct checks only. Finding F7 (KeyError in get_base_property through an enclosing alias) is outside the "
+              "model: the generators do not produce its trigger and it is classified by a harness-side predicate. Source text <-> ast positions are CPython's.")
 MODEL = ("Model.C01_visitor", "run_C01")
-COQ_TARGETS = ["Proofs/C01_visitor.vo"]
+COQ_TARGETS = ["Proofs/C01_visitor.vo", "Proofs/C01_vis.vo"]
 RULE = ("seeded random structural modules (nesting <=4; name pool of 9 with forced duplicates; decorators from the label tables, overload, "
         "accessor, unknown; docstrings in every legal position incl. attribute docstrings, after if/for/try bodies; conditional placement in "
         "if/elif/else, TYPE_CHECKING (plain, typing., negated, nested), try/except/else/finally, for/while/else, with, match; __init__ "
@@ -484,6 +488,8 @@ class Gen:
                 return self.classdef(kind, depth, ind)
             return self.emit(ind, "import os")
         # module / class
+        if r < 0.04:
+            return self.property_idiom(ind)
         if r < 0.22:
             return self.funcdef(kind, depth, ind)
         if r < 0.34 and not deep:
@@ -625,6 +631,19 @@ class Gen:
                 self.docstring(ind + 1)
             else:
                 self.emit(ind + 1, self.rng.choice(["pass", "return 1", "..."]))
+
+    def property_idiom(self, ind):
+        n = self.name()
+        self.features.add("property-idiom")
+        self.emit(ind, "@" + self.rng.choice(["property", "property", "cached_property" if not self.exe else "property"]))
+        self.emit(ind, f"def {n}(self=None, *args):")
+        self.docstring(ind + 1) if self.rng.random() < 0.5 else self.emit(ind + 1, "return 1")
+        if self.rng.random() < 0.3:
+            self.assign("class", ind)
+        for acc in self.rng.sample(["setter", "deleter", "setter"], self.rng.randint(1, 2)):
+            self.emit(ind, f"@{n}.{acc}")
+            self.emit(ind, f"def {n}(self=None, *args):")
+            self.emit(ind + 1, "pass")
 
     def classdef(self, kind, depth, ind):
         self.features.add("class")
@@ -926,10 +945,6 @@ def walk_objects(mod):
     yield from rec(mod, ())
 
 
-def find_class_node(tree_body, path, nodes_by_line, obj):
-    return nodes_by_line.get(obj.lineno + len(obj.decorators)) if obj.decorators else nodes_by_line.get(obj.lineno)
-
-
 def py_gap_f1(tree) -> bool:
     """Python mirror of gap_overload_in_init_list: an @overload def directly in the body of a class's __init__."""
     def is_prop(f):
@@ -1039,19 +1054,6 @@ def direct_checks(case, tree, mod, rec):
         if obj.lineno in deco_owner and obj.kind.value in ("function", "class"):
             return deco_owner[obj.lineno]
         return idx.get(obj.lineno)
-
-    def level_body(path):
-        body = tree.body
-        node = tree
-        for i, name in enumerate(path):
-            o = mod
-            for p in path[:i + 1]:
-                o = o.members[p]
-            node = origin(o)
-            if not isinstance(node, ast.ClassDef):
-                return None, None
-            body = node.body
-        return node, body
 
     for path, obj, parent in walk_objects(mod):
         node = origin(obj)
@@ -1328,7 +1330,9 @@ def runtime_checks(case, tree, mod):
     """Names really bound by executing the module (CPython as authority) are members; exports equal the real __all__."""
     import types
     fails = []
-    ns = exec_module(case["source"])
+    if "_ns" not in case:
+        case["_ns"] = exec_module(case["source"])
+    ns = case["_ns"]
     if ns is None:
         return None
     star = any(isinstance(s, ast.ImportFrom) and any(a.name == "*" for a in s.names) for s in ast.walk(tree))
@@ -1668,6 +1672,7 @@ def check_structural(ctx, cases, label):
     m_spec = ctx.model([["spec", c["mname"], a] for c, a in zip(cases, abss)])
     m_bind = ctx.model([["bindings", c["mname"], a] for c, a in zip(cases, abss)])
     vins = {}
+    traces = []
     for c, a, tree, mv, ms, mb in zip(cases, abss, trees, m_visit, m_spec, m_bind):
         ctx.case({"source": c["source"], "is_init": c["is_init"]}, nontrivial_case(c))
         ctx.observe("stream", label)
@@ -1699,6 +1704,7 @@ def check_structural(ctx, cases, label):
             continue
         ctx.observe("impl_outcome", "ok")
         ctx.observe("events", min(len(rec.calls) // 25 * 25, 300))
+        traces.append((iv[5], small))
         # (O) declarative bindings vs the module level of the implementation: order of first binding, survivor
         if not mb[4]:
             names = mb[1]
@@ -1715,12 +1721,50 @@ def check_structural(ctx, cases, label):
                 bk = {"property": "attribute"}.get(b[2], b[2])
                 if (kind, ln, bool(m.runtime)) != (bk, b[1], not b[4]):
                     ctx.tie_failure("oracle", "survivor(level_bindings) vs module member", {"name": n, "model": b, "impl": [kind, ln, m.runtime]}, small)
+        # which rules of the model this input exercises (from the declarative bindings and the result)
+        seen_names = {}
+        for b in mb[0]:
+            if b[0] in seen_names:
+                ctx.observe("branch", "rebinding")
+                if b[3]:
+                    ctx.observe("branch", "conditional-reassign-kept" if b[2] == "attribute" else "conditional-non-attribute-wins")
+                elif seen_names[b[0]] != b[2]:
+                    ctx.observe("branch", "kind-change:" + seen_names[b[0]] + "->" + b[2])
+            if b[4]:
+                ctx.observe("branch", "type-guarded-binding")
+            seen_names[b[0]] = b[2]
+        for _p, o, _q in walk_objects(mod):
+            if o.is_alias:
+                if o.name.endswith("/*"):
+                    ctx.observe("branch", "star-import")
+                continue
+            if "writable" in o.labels or "deletable" in o.labels:
+                ctx.observe("branch", "accessor-attached")
+            if o.kind.value == "class" and o.exports is not None:
+                ctx.observe("branch", "class-level-__all__")
+            if o.kind.value == "attribute" and "instance-attribute" in o.labels and "class-attribute" not in o.labels and o.parent.kind.value == "class":
+                ctx.observe("branch", "instance-attribute")
+        if mod.exports is not None:
+            ctx.observe("branch", "exports:" + ("empty" if not mod.exports else "names" if any(not isinstance(e, str) for e in mod.exports) else "strings"))
+        if c["is_init"]:
+            ctx.observe("branch", "init-module")
         # direct checks
         fails = direct_checks(c, tree, mod, rec) + event_checks(mod, rec)
         if c["executable"]:
             rt = runtime_checks(c, tree, mod)
             ctx.observe("exec", "failed" if rt is None else "ok")
             fails += rt or []
+            # (O) the declarative bindings (spec side of the theorems) vs CPython: every name the executed module binds
+            # through a supported statement is a bound name of the level (overload-only names are omitted by definition: F6)
+            ns = c.get("_ns")
+            if ns is not None and not mb[4]:
+                sup = supported_bindings(tree.body, path=c["mname"], mname=c["mname"], is_init=c["is_init"])
+                for name in ns:
+                    if name in AUTO_MODULE or name not in sup or all(b["overload"] and not b.get("prop") for b in sup[name]):
+                        continue
+                    if name not in mb[1]:
+                        ctx.tie_failure("oracle", "first_names(level_bindings) vs names bound by executing the module", {"name": name, "model": mb[1]}, small)
+                ctx.count("oracle_exec_modules")
         for name, detail, finding in fails:
             ctx.observe("direct_fail", name + ("" if finding is None else ":" + finding))
             ctx.property_failure(small, f"{name}: {detail}", finding)
@@ -1730,6 +1774,12 @@ def check_structural(ctx, cases, label):
             key = repr(v)
             if key not in vins:
                 vins[key] = (v, real_predicates(o), small, o.path)
+    # the recorded traces through the extracted bracket checker (the definition theorem C01_events_well_bracketed is about)
+    verdicts = ctx.model([["bracket", t] for t, _c in traces])
+    for (t, small), v in zip(traces, verdicts):
+        if v != 1:
+            ctx.property_failure(small, "event trace recorded from griffe.visit is not well bracketed (extracted checker)")
+    ctx.count("traces_bracket_checked", len(traces))
     check_visibility(ctx, list(vins.values()))
 
 
